@@ -5,3 +5,5 @@ import Juniper.Props.C19
 import Juniper.Props.C10
 import Juniper.Props.C10Chan
 import Juniper.Props.C12
+import Juniper.Props.C05
+import Juniper.Props.C15Heap
